@@ -315,6 +315,35 @@ func runC05(r *Run, replay *Case) {
 			}
 		}
 	}
+	// a static default next to a bound override of the same name (`n="0" :n="count"`): a truthy bound value arrives exactly as it does without
+	// the default — same value, same TYPE —, a falsy one leaves the default in place
+	for vi, v := range []any{"str", 4, 2.5, true, []any{"a", "b"}, map[string]any{"k": "v"}, int64(7), uint8(3), "", 0, false, nil, []any{}} {
+		for _, tag := range []bool{false, true} {
+			mk := func(attrs string) map[string]string {
+				inc := `<template include="components/Typed.vuego" ` + attrs + `></template>`
+				if tag {
+					inc = `<typed ` + attrs + `></typed>`
+				}
+				return map[string]string{"p.vuego": "<b>«before»</b>" + inc + inc + "<i>«after:{{ n }}»</i>",
+					"components/Typed.vuego": `<i>«{{ n | type }}:{{ n }}»</i><u v-for="x in n">«item:{{ x }}»</u><s v-if="n">«truthy»</s>`}
+			}
+			d := map[string]any{"v": v}
+			both := renderPage(mk(`n="D" :n="v" other="o"`), "p.vuego", d, vuego.WithComponents())
+			ref := renderPage(mk(`:n="v" other="o"`), "p.vuego", d, vuego.WithComponents())
+			if !c03Documented(v) {
+				ref = renderPage(mk(`n="D" other="o"`), "p.vuego", d, vuego.WithComponents())
+			}
+			mf := mk(`n="D" :n="v" other="o"`) // the model has no `type` function: `len` tells a list from its printed form and a number from a numeric string
+			mf["components/Typed.vuego"] = strings.Replace(mf["components/Typed.vuego"], "n | type", "n | len", 1)
+			pendingPages = append(pendingPages, pageCase("default-override", mf, map[string]string{"typed": "components/Typed.vuego"}, "p.vuego", d))
+			desc := fmt.Sprintf("default-override v#%d tag=%v", vi, tag)
+			cd := &Case{Name: desc, Input: map[string]any{"desc": desc, "files": mk(`n="D" :n="v" other="o"`), "v": toVal(v)}, Impl: both.canon(), Oracle: &Verdict{OK: true}, Key: desc, Tags: []string{"default-override"}}
+			if both.Out != ref.Out || both.Err != ref.Err {
+				cd.Oracle = &Verdict{OK: false, Class: fmt.Sprintf("bound-override-loses-type:%T", v), Detail: fmt.Sprintf("n=\"D\" :n=\"v\" with v=%#v gives %q/%s; the reference form gives %q/%s", v, both.Out, both.Err, ref.Out, ref.Err)}
+			}
+			r.Add(cd)
+		}
+	}
 	// nested includes: props do not leak across levels
 	files := map[string]string{
 		"p.vuego": `<template include="o.vuego" x="PX"></template><i>«p:x={{ x }} y={{ y }}»</i>`,
